@@ -64,11 +64,13 @@ def run_history(ctx, rng, case, est, Q, rate, hname, hf, keys, nsteps, p_pushpop
             force = rng.random() < 0.15
             if force and rng.random() < 0.3:
                 force = 1  # a truthy flag that is not the object True
+            elif not force and rng.random() < 0.3:
+                force = rng.choice([0, None])  # a falsy flag that is not the object False: not forced
             present = f.check(key)
             eff = force or not present
             if rng.random() < 0.85:
                 case.op("add", key, force)
-                f.add(key, force) if force else f.add(key)
+                f.add(key, force) if force or force is not False else f.add(key)
             else:
                 case.op("add_alt", key, force)
                 arg, cp = bl.alt_arg(ctx, (hf or _default())(key, refimpl.bloom_sizing_simple(est, rate)[1] + rng.choice([0, 0, 2, 5])))
